@@ -127,6 +127,10 @@ def cases(tier, seed):
     for name, order in fill_orders():
         for lst in lists:
             yield {"k": "write", "files": lst, "fill": name}
+    # histories on ONE DiskFile object: add and list interleaved
+    for tup in itertools.product((0, 1, 3, 5, 8), repeat=3):
+        for ops in ("ALALAL", "AALAL", "LAALL"):
+            yield {"k": "hist", "files": [ALPHA[i] for i in tup], "ops": ops, "fill": "default"}
     # write side onto pre-existing fragmentation: a file is added to an image (independent writer) whose files sit on scattered chains
     for bi in range(len(FRAG_BASES)):
         for n in (1, 2290, 2295, 4599, 7000, 20000):
@@ -169,6 +173,8 @@ def list_image(img):
 
 
 def cell_of(case):
+    if case["k"] == "hist":
+        return "hist|{}|{}".format(case["ops"], ",".join(lenclass(s) for s in case["files"]))
     if case["k"] == "frag":
         return "frag|base{}|{}|{}".format(case["base"], lenclass(case["files"][0]), case["fill"])
     if case["k"] == "write":
@@ -241,6 +247,29 @@ def check_case(case):
     def bad(symptom, expected, observed):
         viol.append({"component": "roundtrip", "cell": cell, "symptom": symptom, "expected": expected, "observed": observed, "input": case})
 
+    if case["k"] == "hist":
+        from cocoasm.virtualfiles.disk import DiskFile
+        df = DiskFile()
+        added, todo = [], list(case["files"])
+        try:
+            for step, op in enumerate(case["ops"]):
+                if op == "A" and todo:
+                    f = todo.pop(0)
+                    df.add_file(C.to_coco(f))
+                    added.append(f)
+                elif op == "L":
+                    d = compare(added, [C.listed_to_dict(x) for x in df.list_files()])
+                    if d:
+                        bad("after {}: {}".format(case["ops"][:step + 1], d[0]), d[1], d[2])
+                        break
+        except Exception as e:
+            t, w = common._raiser(e)
+            bad("history raised {}@{}".format(t, w), "listing", repr(e)[:100])
+        res["state"] = "hist:{}:{}".format(case["ops"], zlib.crc32(bytes(df.get_buffer())))
+        res["transitions"] = len(case["ops"])
+        if viol:
+            res["viol"] = viol
+        return res
     try:
         if case["k"] == "write":
             img = build_image(case)
